@@ -22,7 +22,7 @@ VARIABLES t, i
 
 CanonRm(j) ==
   IF ~Has(j, "eps") THEN NoMan
-  ELSE [app |-> j.app, shared |-> j.shared, vring |-> j.vring, pid |-> j.pid,
+  ELSE [app |-> j.app, shared |-> j.shared, vring |-> j.vring, pid |-> j.pid, env |-> j.env,
         eps |-> {[name |-> e.name, proto |-> e.proto, infra |-> e.infra, real |-> e.real,
                   port |-> e.port] : e \in SetOf(j.eps)},
         etcp |-> SetOf(j.etcp), eudp |-> SetOf(j.eudp), pass |-> SetOf(j.pass)]
@@ -31,10 +31,10 @@ CanonRm(j) ==
 Canon(j, model) ==
   [rules |-> SetOf(j.rules), specs |-> SetOf(j.specs), vring |-> SetOf(j.vring),
    infra |-> SetOf(j.infra), net |-> SetOf(j.net),
-   man |-> model.man, fin |-> model.fin, failed |-> model.failed, mem |-> model.mem,
-   bad |-> {}]
+   man |-> model.man, fin |-> model.fin, failed |-> model.failed, ports |-> model.ports,
+   mem |-> model.mem, bad |-> {}]
 
-Model0 == [man |-> {}, fin |-> {}, failed |-> {}, mem |-> {}]
+Model0 == [man |-> {}, fin |-> {}, failed |-> {}, ports |-> {}, mem |-> {}]
 
 Obs(s) == [rules |-> s.rules, specs |-> s.specs, vring |-> s.vring, infra |-> s.infra,
            net |-> s.net]
@@ -45,7 +45,7 @@ Adopt(pre, line) ==
   LET rm == CanonRm(line.rm)
       m == Step(pre, line.ev, line.c, rm, AnyChoice(pre, line, rm)).post
       logged == Canon(line.post, [man |-> m.man, fin |-> m.fin, failed |-> m.failed,
-                                  mem |-> pre.mem]) IN
+                                  ports |-> m.ports, mem |-> pre.mem]) IN
   Remember(pre, line.ev, line.c, logged)
 
 (* An aborted finish attempt (FinishFail line, res "raise"): where exactly    *)
@@ -73,12 +73,35 @@ Explained(pre, line, post) ==
      LET r == Step(pre, line.ev, line.c, rm, v) IN
      r.res = line.res /\ Obs(r.post) = Obs(post)
 
+(* ---- beyond C16: port allocation (ext.ports.*, conformance class) -------- *)
+(* Start lines carry rm.num (port string -> number, from state.json) and      *)
+(* socks (the sockets allocate_network_ports returned, inspected after        *)
+(* save_app: <<proto, port>> of every one that is still open and bound).      *)
+Ranges == Batch.ranges        \* [prod |-> <<low, high>>, nonprod |-> <<low, high>>], iptables.py
+ExtRange(rm, num) ==
+  LET r == Ranges[PortClass(rm.env)] IN
+  /\ Ranges.prod[2] < Ranges.nonprod[1] \/ Ranges.nonprod[2] < Ranges.prod[1]
+  /\ \A p \in PortsOf(rm, "tcp") \cup PortsOf(rm, "udp") :
+        /\ Has(num, p) /\ ToString(num[p]) = p
+        /\ r[1] <= num[p] /\ num[p] <= r[2]
+ExtHeld(rm, socks) ==
+  SetOf(socks) = {<<"tcp", p>> : p \in PortsOf(rm, "tcp")} \cup {<<"udp", p>> : p \in PortsOf(rm, "udp")}
+ExtFail(pre, line) ==
+  IF line.ev = "Start" /\ Has(line.rm, "eps")
+  THEN LET rm == CanonRm(line.rm) IN
+       ExtPortsFail(pre, line.c, line.raw, rm)
+       \cup FailIf("ext.ports.range", ExtRange(rm, line.rm.num))
+       \cup FailIf("ext.ports.held", ExtHeld(rm, line.socks))
+  ELSE {}
+
 Verdict(pre, line, post) ==
   [fail |-> StepFail(pre, line.ev, line.c, line.res, post)
+            \cup ExtFail(pre, line)
             \cup FailIf("drift.step", Explained(pre, line, post))
             \cup FailIf("drift.alloc", (line.ev = "Start" /\ Has(line.rm, "eps"))
                                          => RegOk(line.raw, CanonRm(line.rm))),
-   ex |-> StepEx(pre, line.ev, line.c, post)]
+   ex |-> StepEx(pre, line.ev, line.c, post)
+          \cup FlagIf("ext.ports", line.ev = "Start" /\ Has(line.rm, "eps"))]
 
 TrInit == /\ t \in DOMAIN Traces
           /\ i = 1
